@@ -412,7 +412,7 @@ theorem stepXg_jx (srt : Sorter) (hsrt : SorterOK srt) (sp : Spec) (w : World) (
           · split
             · exact ⟨h1, h2, hrm, h4, h5⟩
             · split
-              · exact ⟨h1, h2, hrm, h4, h5⟩
+              · exact checkAffected_jx sp _ _ ⟨h1, h2, hrm, h4, h5⟩
               · split
                 · exact ⟨h1, h2, hrm, h4, h5⟩
                 · exact ⟨JRU_setTask sp _ _ h1, nij_setTask sp _ _ h2 (by simp),
@@ -625,7 +625,7 @@ theorem stepXg_running (srt : Sorter) (sp : Spec) (w : World) (ev : Event) (S : 
             split
             · exact h0
             · split
-              · exact h0
+              · exact checkAffected_rw _ sp _ _ h0
               · split
                 · exact h0
                 · exact rw_setTask _ _ _ h0 (fun _ => Or.inr (hc (fun hft => absurd hft hf)))
